@@ -5,6 +5,15 @@ import json, subprocess
 LOOPNOTE = 'Trusts: A1 token contract (lower-case tag names, exact serialiser/tokeniser round trip), sanitizeAttrs replaced by an arbitrary-result stub, policy tables of at most 2 entries per kind (an upper bound that is general for one step: one step looks up one name per table), z3 5.1 / cvc5 1.0, go/ssa semantics as interpreted.'
 
 CLAIMED = {
+ "C04": dict(
+   text="The real UGCPolicy() and StrictPolicy() are obtained by executing the constructors (and every helper they call) inside the symbolic interpreter. (1) Their tables and switches are compared with a vocabulary table written from the documentation (elements, forbidden elements, global attributes, the three URL schemes, no patterns/styles/rewriter, unsafe switches off). (2) One iteration of sanitize's token loop from an arbitrary state runs under each concrete policy with token names from the vocabulary, every forbidden element and generic names: every write is escaped text or, for UGC, a tag of the vocabulary; Strict writes no tag, comment or doctype. (3) The real sanitizeAttrs + validURL run under the concrete UGC policy on one free attribute of each vocabulary element: SMT decides that every surviving attribute is in the documented list for that element, is neither style nor on*, that URL attributes have scheme http/https/mailto or none and are emitted normalised, and that links get rel=nofollow.",
+   note="Trusts: the vocabulary table as the documented vocabulary; A1-A3; attribute values without embedded white space and elements other than del/ins in part (3) (those cases are covered generically by C02/C03); the converse direction (conforming documents pass unchanged) is C07's generic result, not re-instantiated; z3 5.1 / cvc5 1.0; go/ssa semantics as interpreted.",
+   technique="symbolic execution of go/ssa (concrete execution of the constructors, symbolic inputs) + SMT", design="5 C04"),
+ "C18": dict(
+   text="For every function in the real defaultStyleHandlers map (read from the heap after executing the css package initialiser) the handler body is executed symbolically on a free value; calls of other handlers are opaque predicates carrying the lemma 'accepts t => t has no hostile fragment' that this check establishes for them (modular over the call graph). Three helper idioms are replaced by summaries that are first proved against their real bodies: recursiveCheck = existence of a segmentation (<=3 parts, <=2 predicates), in(splitValues(v), consts) = a regular language (<=3 parts, then used for any number of parts). On every accepting path SMT decides, per hostile class (<, >, backslash, @, expression(, javascript:/data: reference, url() that is not a plain http/https reference), that the value has no such fragment; for split values the classes are distributed over the parts using lemmas the solver proves for arbitrary strings. GetDefaultHandler on an unknown property yields BaseHandler, which rejects everything.",
+   note="Trusts: A4 regex translation; regexp.ReplaceAll(v, \"\") as an uninterpreted function that neither deletes nor creates a hostile fragment; split bound K=2 (quick) / 3 (thorough) parts per level for space/slash splits (comma-separated enum lists are unbounded via the summary). Not claimed: TransformHandler (solver timeouts); FontFamilyHandler, FontHandler, BorderSideRadiusHandler, BackgroundHandler, BackgroundPositionHandler are checked in the thorough tier only. 'Belongs to the property's value space' beyond inertness is outside.",
+   technique="symbolic execution of go/ssa + SMT strings/regex (modular, lemma-validated summaries)", design="5 C18"),
+
  "C14": dict(
    text="Part A: every index, slice, nil-map, nil-dereference, type-assertion and explicit-panic site reached on any path of the token loop (with the inductively proved invariant skipClosingTag <=> non-empty stack), isDataAttribute, removeUnicode (up to 2 escapes per value), the data-URI check closure, sanitizeStyles, validURL and the sandbox filter is a built-in obligation of the symbolic interpreter, discharged by SMT on free inputs. Part B: css.recursiveCheck is executed with opaque predicates and the number of predicate calls on every path is compared with the segmentation-table bound F*n(n+1)/2 for n<=4 (quick) / 5 (thorough) parts; an excess is replayed as a timing measurement of a pumped style value through Policy.Sanitize.",
    note="Trusts: models of FindStringIndex (sub-range matching the pattern), strconv.Unquote and base64 (uninterpreted); panics and running time inside x/net/html, net/url, regexp, douceur are outside; wall-clock time is not claimed, only the call-count bound up to the stated n.",
